@@ -1,0 +1,13 @@
+//go:build verif
+
+// Machine-checked contracts for package flows/routers/cases (comment-only; read by /verif/gocv).
+// Most functions of this package are covered by the zero-annotation no-panic sweep (/verif/sweeps/C04.json).
+
+package cases
+
+// has_phrase: the index into the phrase stays inside it (it is reset on a mismatch and the loop stops when it reaches the end)
+//@ func hasPhraseTest
+//@   nopanic
+//@   requires !isnil(env)
+//@ loop 1
+//@   invariant 0 <= pinIdx && pinIdx < len(pins) && len(matches) == len(pins)
